@@ -106,6 +106,9 @@ def gen_scenario(rng):
             else:
                 ops.append("resp:%d" % w[0])
                 waiting.remove(w)
+        elif r < 0.87 and udp:
+            nempty = sum(1 for o in ops if o.startswith("empty:")) + 1
+            ops.append("empty:%d:%s" % (nempty, rng.choice(["rst", "rst", "ack"])))
         elif r < 0.93:
             ops.append("sleep:%d" % rng.choice([100, 1000, 5000, 31000]))
         elif r < 0.96:
@@ -207,6 +210,33 @@ def framesize_family(rng=None):
     return out
 
 
+def empty_family(rng=None):
+    """Empty messages of the peer (code 0.00, no token) on the datagram transport: an ACK that matches nothing is discarded by
+    the message layer; a Reset that matches nothing is an accepted message and reaches the application's handler once (this is
+    how an application learns that the peer rejected a non-confirmable message); a Reset / ACK that matches a pending ping or
+    request completes it (`pong`, `ack:<k>`).  Alone, between requests, while a handler waits in a nested call, and on the
+    stream transport (where there are no such messages: the op does nothing)."""
+    out = []
+    for q in ((16, 0) if rng is None else (rng.choice([0, 1, 16]),)):
+        out += [
+            "scn udp %d 0 0 empty:1:rst settle" % q,
+            "scn udp %d 0 0 empty:1:ack settle" % q,
+            "scn udp %d 0 0 arrive:1:r empty:1:rst empty:2:ack empty:3:rst arrive:2:r settle" % q,
+            "scn udp %d 0 0 arrive:1:g1 empty:1:rst ack:1 empty:2:ack empty:3:rst sep:1 empty:4:rst settle" % q,
+            "scn udp %d 0 0 arrive:1:p empty:1:rst pong empty:2:rst sleep:11000 settle" % q,
+            "scn udp %d 0 0 burst:1-2-3 empty:1:rst burst:4-5 empty:2:rst settle" % q,
+            "scn udp %d 0 0 watch:1:g7 resp:1 note:1 empty:1:rst note:1 resp:7 empty:2:rst sleep:31000 settle" % q,
+        ]
+    if rng is None:
+        out.append("scn tcp 16 0 0 arrive:1:r empty:1:rst empty:2:ack arrive:2:r settle")
+    return out
+
+
+# one discovery of a real udp.Server over a loopback socket each (real time, about 1.6 s per line): the receiver callback issues a
+# blocking request on the responder's connection; order of the responder's messages after it
+DISCOVERY = ["disc ack-d2-sep", "disc d2-ack-sep", "disc ack-sep-d2", "disc d2-pig"]
+
+
 FIXED = [
     # F11 with the default limits 1/1: the answer is on the connection, nobody reads it, the outer call times out at 30 s
     "scn tcp 16 1 1 call:g9 arrive:1:g1 resp:9 sleep:31000 settle",
@@ -252,7 +282,10 @@ def corpus_lines():
 
 def gen_lines(ctx):
     rng = random.Random(ctx.seed * 7727 + 11)
-    L = [(l, True) for l in corpus_lines() + FIXED + stale_family() + requeue_family() + callback_family() + framesize_family()]
+    L = [(l, True) for l in corpus_lines() + FIXED + stale_family() + requeue_family() + callback_family() + framesize_family()
+         + empty_family() + DISCOVERY]
+    for _ in range(20 if ctx.tier == "thorough" else 2):
+        L += [(l, True) for l in empty_family(rng)]
     for _ in range(40 if ctx.tier == "thorough" else 6):
         L += [(l, True) for l in stale_family(rng)]
     for _ in range(30 if ctx.tier == "thorough" else 3):
@@ -370,6 +403,25 @@ def explore(ctx, art):
                 line, impl, model, judge, cls = r2
         ctx.cov["evaluations"] += 1
         f = line.split()
+        if f[0] == "disc":
+            ctx.count("discovery:" + f[1] + (":skipped" if impl.startswith("skip") else ""))
+            if impl.startswith("skip"):
+                ctx.notes.append("discovery history skipped: no loopback socket")
+            elif impl.startswith("panic"):
+                ctx.violations.append(common.Violation("no-crash", "C11:no-crash:" + line, "%s -> %s" % (line, impl), {"input": [line], "observed": impl}))
+            elif judge != "ok":
+                # real sockets and a real clock: a verdict must show twice (a loaded machine can delay a datagram past a deadline)
+                again = evaluate(ctx, art, [line], tag="disc2")
+                if again and again[0][3] == "ok":
+                    ctx.notes.append("discovery history judged `%s` once and ok on the second run (real-time rig): %s | %s" % (judge, line, impl))
+                    continue
+                clause = judge.replace("violates ", "")
+                ctx.violations.append(common.Violation(clause, "C11:%s:%s" % (clause, line),
+                                                       "%s (udp.Server.DiscoveryRequest over a loopback socket; the receiver callback issues a blocking request on the "
+                                                       "responder's connection): observed `%s`: %s" % (line, impl, judge),
+                                                       {"input": [line], "observed": impl, "judge": judge}))
+                ctx.count("judge:%s:discovery" % clause)
+            continue
         ctx.count("%s-queue%s-limits%s/%s" % (f[1], f[2], f[3], f[4]))
         if impl == "skipped":
             ctx.cov["evaluations"] -= 1
